@@ -152,8 +152,10 @@ def rule_cmp_delegate(ctx):
         for p in ctx.ex.paths(b):
             if p.exit[0] != "return":
                 continue
+            # (decided by Tagged::is_null of the word, or by the handle's own is_null, which BIT-DELEGATION shows to be that)
             nullc = [e for e in p.events if e.kind == "cond" and isinstance(e.term, tuple) and e.term[0] == "call"
-                     and norm(e.term[1]) == "ebr_impl::pointers::Tagged::is_null"]
+                     and (norm(e.term[1]) == "ebr_impl::pointers::Tagged::is_null" or
+                          norm(e.term[1]) in ("strong::Rc::is_null", "strong::Snapshot::is_null"))]
             if len(nullc) != 1:
                 r.violate(asref, "as_ref", "as_ref does not decide by Tagged::is_null", b.loc(0))
                 continue
